@@ -92,49 +92,84 @@ def check(prog, run):
                     run.violation("no-alias-of-shared-object", "%s.%s" % (key.split(":")[1], an),
                                   "cmd.%s is the shared object %s (a default argument / class-level container): mutating one command's "
                                   "buffer changes every later command" % (an, I.static_ids[id(av)]), prog.rel(cls.module), init.node.lineno, key)
-    # 2. every marshalling / unmarshalling helper with symbolic inputs
-    for f in prog.all_functions():
-        if f.cls is None or not f.cls.qualname in classes and f.cls.name not in ("SCSICommand", "SCSICheckCondition"):
-            continue
-        nm = f.name
-        if not (nm.startswith(("marshall_", "unmarshall_", "encode_", "get_code", "scsi_to_")) or nm in ("build_cdb",)):
-            continue
-        nfunc += 1
+    # 2. every decoder on a symbolic device buffer, every marshaller / parser pair on the
+    #    enumerated shapes of spec/roundtrip.py, every parameter-list constructor of spec/paramlists.py
+    from ..decoders import install_decoder_watches
+    from .c11 import decoder_targets
+    from spec import roundtrip as refrt
+    from spec import paramlists as refpl
+    I.visited = set()
+
+    def collect(paths, label):
+        for e in scan(paths, label):
+            where = e.get("where") or ""
+            fn = where.split("@")[0] or label
+            k = "%s %s" % (fn, effect_key(e))
+            found.setdefault(k, (e, fn))
+
+    for f in decoder_targets(prog):
         params = [p.arg for p in f.node.args.args]
 
         def th(f=f, params=params):
             args = []
             for pn in params:
-                if pn in ("cls",):
-                    args.append(f.cls)
-                elif pn == "self":
+                if pn == "cls":
+                    continue
+                if pn == "self":
                     args.append(Instance(f.cls))
-                elif nm.startswith("unmarshall") and pn in ("data", "d", "cdb"):
+                elif pn in ("data", "d", "sense"):
                     args.append(View("device"))
-                elif pn in ("opcode",):
-                    args.append(SymAny(("opcode",)))
-                elif pn == "numbytes":
-                    args.append(24)
-                elif pn == "check_dict":
-                    args.append({"descriptor_type_code": [0xFF, 0]})
+                elif pn == "evpd":
+                    args.append(Sym.param("evpd", 1))
+                elif pn == "_type":
+                    args.append(Sym.param("_type", 8))
                 else:
-                    args.append(SymDict(pn) if pn in ("data", "data_dict", "datadict", "segment_dict", "target_dict", "cscd_dict", "cdb") else SymAny((pn,)))
-            return I.call(I.get_attr(f.cls, nm, None, _F()) if f.kind != "function" else f, args[1:] if f.kind == "classmethod" else args, {}, None, _F())
-        try:
-            paths = I.explore(th, max_paths=400)
-        except AnalysisError as e:
-            if e.reason in ("path-limit", "path-too-long", "call-depth"):
-                run.notes.append("%s: %s (inventory covers the explored paths only)" % (f.qualname, e.reason))
-                continue
-            raise
-        bad = scan(paths, f.qualname)
-        if not bad:
-            run.ok("no-shared-state-store", f.qualname, {"paths": len(paths)})
-        for e in bad:
-            where = e.get("where") or ""
-            fn = where.split("@")[0] or f.qualname
-            k = "%s %s" % (fn, effect_key(e))
-            found.setdefault(k, (e, fn))
+                    args.append(SymAny((pn,)))
+            kw = {"est": 1, "mcsb": 0x1F, "c2ei": 1, "scsb": 2} if f.node.args.kwarg is not None else {}
+            fn = I.get_attr(f.cls, f.name, None, _F()) if f.kind != "function" else f
+            return I.call(fn, args, kw, None, _F())
+        collect(I.explore(th, max_paths=3000), f.qualname)
+    for case in refrt.CASES:
+        cls = prog.cls(*case["cls"].split(":"))
+
+        def th2(case=case, cls=cls):
+            d = case["build"]()
+            b = I.call(I.get_attr(cls, case["marshall"], None, _F()), [d], {}, None, _F())
+            again = I.call(I.get_attr(cls, case["marshall"], None, _F()), [case["build"]()], {}, None, _F())
+            d1 = I.call(I.get_attr(cls, case["unmarshall"], None, _F()), [b], dict(case["ukw"]), None, _F())
+            return b, again
+        ps = I.explore(th2, max_paths=64)
+        collect(ps, case["name"])
+        # repeating a marshalling call with equal inputs yields equal bytes
+        for p in ps:
+            if p.returned:
+                b, again = p.value
+                from ..images import same_value
+                if same_value(b, again):
+                    run.ok("marshalling-repeatable", case["name"], nontrivial=False)
+                else:
+                    run.violation("marshalling-repeatable", case["name"], "two marshalling calls with equal inputs give different bytes",
+                                  prog.rel(cls.module), None, case["cls"])
+    enum_spc = prog.module(ENUM_MOD).env["spc"]
+    for group, opname in ((refpl.PR_CASES, "PERSISTENT_RESERVE_OUT"), (refpl.MODE_CASES, None), (refpl.XCOPY_CASES, "EXTENDED_COPY")):
+        for case in group:
+            cls = prog.cls(*(case.get("cls") or refpl.PO).split(":"))
+            on = opname or ("MODE_SELECT_6" if cls.name.endswith("6") else "MODE_SELECT_10")
+
+            def th3(case=case, cls=cls, on=on):
+                kw, img = case["build"]()
+                if "sa" in case:
+                    kw = dict(kw, service_action=case["sa"])
+                elif "mode_pages" in kw:
+                    kw = {"data": kw}
+                return I.instantiate(cls, [enum_spc.members[on]], kw, None, _F())
+            collect(I.explore(th3, max_paths=64), case["name"])
+    visited = sorted(q for q in I.visited if any(t in q.split(".")[-1] for t in ("marshall", "encode_", "get_code", "_pad4", "scsi_to_", "build_cdb", "__init__")))
+    nfunc += len(visited)
+    run.extra["functions_reached"] = visited
+    for q in visited:
+        if not any(fn == q for (_, fn) in found.values()):
+            run.ok("no-shared-state-store", q, nontrivial=True)
     # report each shared store once, with its readers
     for k, (e, fn) in sorted(found.items()):
         readers = []
@@ -152,7 +187,9 @@ def check(prog, run):
         run.violation("no-shared-state-store", k, msg, prog.rel(mod) if mod else None, getattr(node, "lineno", None), fn,
                       facts={"readers": readers})
     # 3. behavioural confirmation on ordered pairs
-    keys = sorted(first_con)
+    reps = ["Read10", "Read16", "Write12", "Inquiry", "TestUnitReady", "ReportLuns", "ModeSense6", "ATAPassThrough16", "MoveMedium",
+            "PersistentReserveInReadKeys", "ReadCd", "ExtendedCopy", "GetLBAStatus", "WriteSame16"]
+    keys = sorted(k for k in first_con if k.split(":")[1] in reps)
     npairs = 0
     broken = []
     for ka in keys:
